@@ -12,6 +12,9 @@ import (
 // the schema is not JSON), then simplification of the remaining long strings.
 func minimise(c Case, sig string, extra customfuncs.CustomFuncs, deadline time.Duration, budget int) (Case, int) {
 	probes := 0
+	saved := grace
+	grace = 0
+	defer func() { grace = saved }()
 	test := func(x Case) bool {
 		if probes >= budget {
 			return false
